@@ -76,8 +76,9 @@ CHECKS = {
              "three read interlaces, palettes in three read interlaces, GRendaccess/GRselect, GRend/GRstart restarts. "
              "Oracle: height x width x components model with independently written interlace permutations. "
              "8 000 (quick) / 200 000 (thorough) histories.",
-        note="Trusts the array model; writes use stride 1 (the property speaks of region writes); compressed "
-             "non-chunked images are written once and released (two known findings, stored replays).",
+        note="Trusts the array model; writes use stride 1 (the property speaks of region writes); old-style (DFR8) RLE "
+             "images are read but not rewritten, and whole-chunk calls are not mixed with region calls on one image "
+             "in one session (two known findings, stored replays).",
         tech=TECH % ("", "oracle = pixel-array reference model"),
     ),
     "C10": dict(
